@@ -420,17 +420,23 @@ Qed.
 Lemma str_cmp_good : good str_cmp.
 Proof. apply lex_good, N_compare_good. Qed.
 
+Lemma nat_compare_good : good Nat.compare.
+Proof.
+  constructor.
+  - intros a b. apply Nat.compare_eq_iff.
+  - intros a b. apply Nat.compare_antisym.
+  - intros a b d H1 H2. apply Nat.compare_lt_iff in H1, H2. apply Nat.compare_lt_iff. lia.
+Qed.
+
 Lemma kv_cmp_good : good kv_cmp.
 Proof.
   destruct Z_compare_good as [Zeq Zanti Ztrans]. destruct str_cmp_good as [Seq Santi Strans].
   constructor.
-  - intros [x|x] [y|y]; simpl; split; intro H; try discriminate.
-    + apply Zeq in H. congruence.
-    + inversion H; subst. apply Zeq. reflexivity.
-    + apply Seq in H. congruence.
-    + inversion H; subst. apply Seq. reflexivity.
-  - intros [x|x] [y|y]; simpl; auto.
-  - intros [x|x] [y|y] [z|z]; simpl; intros H1 H2; try discriminate; try reflexivity; eauto.
+  - intros [x|x|x|x] [y|y|y|y]; simpl; split; intro H; try discriminate;
+      try (apply Zeq in H; congruence); try (apply Seq in H; congruence);
+      try (inversion H; subst; apply Zeq; reflexivity); try (inversion H; subst; apply Seq; reflexivity).
+  - intros [x|x|x|x] [y|y|y|y]; simpl; auto.
+  - intros [x|x|x|x] [y|y|y|y] [z|z|z|z]; simpl; intros H1 H2; try discriminate; try reflexivity; eauto.
 Qed.
 
 Lemma key_cmp_good : good key_cmp.
@@ -508,9 +514,11 @@ Proof.
 Qed.
 
 (* the sort never raises on well-typed contexts *)
+(* well-typed contexts: the row is an int; every other key is text OR a number (column labels of a
+   file read without a header are numbers -- made comparable by fix commit 2e53521) *)
 Definition ctx_typed (i : issue) : bool :=
   forallb (fun k => match dict_get k (i_ctx i) with
-                    | Some (VInt _) => ckey_mem k int_sort_list
+                    | Some (VInt _) => true
                     | Some (VStr _) => negb (ckey_mem k int_sort_list)
                     | Some (VHed _) => false
                     | None => true
@@ -523,7 +531,7 @@ Lemma sort_key_documented_order :
 Proof. split; [eexists; reflexivity | reflexivity]. Qed.
 
 Definition key_at (k : ckey) (i : issue) : kv :=
-  match get_key1 (i_ctx i) k with Some v => v | None => KS [] end.
+  match get_key1 (i_ctx i) k with Some v => v | None => KT0 [] end.
 
 Lemma key_cmp_documented : forall a b,
   exists ra rb,
@@ -822,7 +830,8 @@ Proof.
   - destruct (update_cases _ _ _ H) as [E | (ns & ne & E)]; subst i'; [assumption | discriminate].
 Qed.
 
-(* the code as it is: witness = the warning STYLE_WARNING on tag "red" (span 0..3) of
+(* record of the repaired defect C12-F1 (behaviour before fix commit 5312cdc, fixed = false):
+   witness = the warning STYLE_WARNING on tag "red" (span 0..3) of
    the string "red", validated through HedValidator.validate with a handler that
    holds the string context *)
 Definition k_STYLE_WARNING : str := [83;84;89;76;69;95;87;65;82;78;73;78;71]%N.
@@ -850,21 +859,18 @@ Proof.
   vm_compute. auto.
 Qed.
 
-(* the status of the clause for the code as it is (code_is_fixed mirrors FIXED in
-   harness/c12.py): full theorem when fixed, refutation otherwise *)
-Definition suffix_once_statement (fixed : bool) : Prop :=
-  if fixed then
-    forall h basic full out, Forall suffix_inv basic -> Forall suffix_inv full ->
-      validate true h basic full = Ok out -> Forall suffix_inv out
-  else
-    exists h basic full out i, Forall fresh basic /\ Forall fresh full /\
-      validate false h basic full = Ok out /\ In i out /\
-      i_char i = Some (0, 3) /\ i_suffixes i = [(0, 3); (0, 3)] /\ i_sev i = sev_warning.
+(* the clause for the code as it is in /repo: [code_is_fixed] mirrors FIXED in harness/c12.py (true since
+   fix commit 5312cdc).  Stated for THAT mode: flipping the switch makes this proof fail. *)
+Lemma suffix_once_current : forall h basic full out,
+  Forall suffix_inv basic -> Forall suffix_inv full ->
+  validate code_is_fixed h basic full = Ok out -> Forall suffix_inv out.
+Proof. exact suffix_once_fixed. Qed.
 
-Lemma suffix_once_status : forall fixed, suffix_once_statement fixed.
-Proof. intros [|]; [exact suffix_once_fixed | exact suffix_once_refuted]. Qed.
+Lemma suffix_once_current_passes : forall h l l',
+  Forall suffix_inv l -> add_context_and_filter code_is_fixed h l = Ok l' -> Forall suffix_inv l'.
+Proof. exact acf_fixed_inv. Qed.
 
-(* what the unguarded code guarantees: one decoration of fresh issues is fine ... *)
+(* what the code before fix commit 5312cdc (fixed = false) did guarantee: one decoration of fresh issues is fine ... *)
 Lemma update_current_fresh : forall i i',
   fresh i -> update_error_with_char_pos false i = Ok i' -> suffix_inv i'.
 Proof.
@@ -1097,36 +1103,40 @@ Proof. eexists. split; [vm_compute; reflexivity|]. vm_compute. auto. Qed.
 
 (* ================================================================== 9. the sort never raises on typed contexts *)
 
-Definition kv_is_int (v : kv) : bool := match v with KI _ => true | KS _ => false end.
+(* raw int component (int key) / tagged component (any other key) *)
+Definition kv_class (v : kv) : nat := match v with KI _ => 0 | KS _ => 1 | KT0 _ | KT1 _ => 2 end.
 
-Lemma comparable_same_shape : forall (fa fb : ckey -> kv) ks,
-  (forall k, In k ks -> kv_is_int (fa k) = kv_is_int (fb k)) ->
+Lemma comparable_same_class : forall (fa fb : ckey -> kv) ks,
+  (forall k, In k ks -> kv_class (fa k) = kv_class (fb k) /\ kv_class (fa k) <> 1) ->
   comparable (map fa ks) (map fb ks) = true.
 Proof.
   induction ks as [|k ks IH]; intros H; [reflexivity|].
   cbn [map comparable].
-  pose proof (H k (or_introl eq_refl)) as Hk.
+  destruct (H k (or_introl eq_refl)) as [Hk Hn].
   assert (IH' : comparable (map fa ks) (map fb ks) = true) by (apply IH; intros k' Hin; apply H; right; assumption).
-  destruct (fa k) as [p|p], (fb k) as [q|q]; simpl in Hk; try discriminate.
+  destruct (fa k) as [p|p|p|p], (fb k) as [q|q|q|q]; simpl in Hk, Hn; try discriminate; try congruence;
+    try reflexivity.
   - destruct (Z.eqb p q); [assumption | reflexivity].
   - destruct (str_eqb p q); [assumption | reflexivity].
+  - destruct (Z.eqb p q); [assumption | reflexivity].
 Qed.
 
 Lemma typed_key_shape : forall i k,
   (match dict_get k (i_ctx i) with
-   | Some (VInt _) => ckey_mem k int_sort_list
+   | Some (VInt _) => true
    | Some (VStr _) => negb (ckey_mem k int_sort_list)
    | Some (VHed _) => false
    | None => true
    end) = true ->
   get_key1 (i_ctx i) k <> None /\
-  kv_is_int (match get_key1 (i_ctx i) k with Some v => v | None => KS [] end) = ckey_mem k int_sort_list.
+  kv_class (match get_key1 (i_ctx i) k with Some v => v | None => KT0 [] end)
+  = if ckey_mem k int_sort_list then 0 else 2.
 Proof.
   intros i k H. unfold get_key1.
   set (m := ckey_mem k int_sort_list) in *. clearbody m.
   destruct (dict_get k (i_ctx i)) as [[s|z|h]|].
-  - split; [discriminate|]. cbn [kv_is_int]. destruct m; [discriminate | reflexivity].
-  - split; [discriminate|]. cbn [kv_is_int]. symmetry. assumption.
+  - split; [discriminate|]. destruct m; [discriminate | reflexivity].
+  - split; [discriminate|]. destruct m; reflexivity.
   - discriminate.
   - split; [discriminate|]. destruct m; reflexivity.
 Qed.
@@ -1142,11 +1152,11 @@ Qed.
 Lemma typed_comparable : forall a b, ctx_typed a = true -> ctx_typed b = true ->
   comparable (get_keys a) (get_keys b) = true.
 Proof.
-  intros a b Ha Hb. unfold get_keys. apply comparable_same_shape.
+  intros a b Ha Hb. unfold get_keys. apply comparable_same_class.
   intros k Hk. unfold ctx_typed in Ha, Hb. rewrite forallb_forall in Ha, Hb.
   destruct (typed_key_shape a k (Ha k Hk)) as [_ Ea].
   destruct (typed_key_shape b k (Hb k Hk)) as [_ Eb].
-  rewrite Ea, Eb. reflexivity.
+  rewrite Ea, Eb. split; [reflexivity|]. destruct (ckey_mem k int_sort_list); discriminate.
 Qed.
 
 Lemma sort_total_on_typed : forall l reverse,
@@ -1164,3 +1174,62 @@ Proof.
     - apply IH; [assumption|]. rewrite forallb_forall in *. intros y Hy. apply typed_modelled, Hxs, Hy. }
   rewrite Hp. eexists; reflexivity.
 Qed.
+
+(* ================================================================== 10. every issue has a message *)
+
+Fixpoint msg_lookup (kind : str) (l : list (str * nat)) : option nat :=
+  match l with
+  | [] => None
+  | (k, n) :: r => if str_eqb k kind then Some n else msg_lookup kind r
+  end.
+
+Definition k_Unknown : str := [85;110;107;110;111;119;110]%N.
+
+(* literal characters in the text format_error stores under 'message' for [kind]: the registered message
+   function's, or val_error_unknown's for an unregistered kind *)
+Definition msg_min_of (kind : str) : nat :=
+  match msg_lookup kind kind_msg_min with
+  | Some n => n
+  | None => match msg_lookup k_Unknown kind_msg_min with Some n => n | None => 0 end
+  end.
+
+Lemma msg_table_positive : forallb (fun kn => 0 <? snd kn) kind_msg_min = true.
+Proof. vm_compute. reflexivity. Qed.
+
+Lemma msg_table_covers_kinds : map fst kind_msg_min = map k_kind kind_table.
+Proof. vm_compute. reflexivity. Qed.
+
+Lemma msg_lookup_in : forall kind l n, msg_lookup kind l = Some n -> In (kind, n) l \/ exists k, In (k, n) l.
+Proof.
+  induction l as [|[k m] l IH]; simpl; intros n H; [discriminate|].
+  destruct (str_eqb k kind); [inversion H; subst; right; exists k; left; reflexivity|].
+  destruct (IH n H) as [A | [k' A]]; [left; right; assumption | right; exists k'; right; assumption].
+Qed.
+
+Lemma message_nonempty : forall kind, 0 < msg_min_of kind.
+Proof.
+  intro kind. unfold msg_min_of.
+  pose proof msg_table_positive as P. rewrite forallb_forall in P.
+  destruct (msg_lookup kind kind_msg_min) as [n|] eqn:E.
+  - destruct (msg_lookup_in _ _ _ E) as [A | [k A]]; apply P in A; simpl in A; apply Nat.ltb_lt; assumption.
+  - vm_compute. lia.
+Qed.
+
+(* ================================================================== 11. numeric column labels *)
+
+Lemma text_label_before_number : forall s z, kv_cmp (KT0 s) (KT1 z) = Lt.
+Proof. reflexivity. Qed.
+
+(* issues of a headerless file: no column label, a text label, numeric labels 2 and 10 *)
+Definition nl_issue (n : nat) (col : option cval) : issue :=
+  {| i_code := [88]%N; i_sev := n; i_msg := {| m_tag := None; m_frag := None |}; i_idx := None; i_idx_end := None;
+     i_src := None;
+     i_ctx := (CFile, VStr [102]%N) :: (CRow, VInt 2) :: match col with Some c => [(CColumn, c)] | None => [] end;
+     i_char := None; i_suffixes := [] |}.
+Definition nl_list : list issue :=
+  [nl_issue 0 (Some (VInt 10)); nl_issue 1 (Some (VStr [72;69;68]%N)); nl_issue 2 (Some (VInt 2)); nl_issue 3 None].
+
+Lemma numeric_labels_sorted :
+  forallb ctx_typed nl_list = true /\
+  exists out, sort_issues nl_list false = Ok out /\ map i_sev out = [3; 1; 2; 0].
+Proof. split; [vm_compute; reflexivity|]. eexists. split; vm_compute; reflexivity. Qed.
